@@ -139,7 +139,9 @@ def main(argv=None):
     found = []
     harness_errors = []
     for e in available:
-        share = budget / len(available)
+        w = spec.get("weights") or {}
+        share = budget * w[e] / sum(w[x] for x in available) if all(x in w for x in available) \
+            else budget / len(available)
         agg = orch.run_batch(prop, e, tier, seed, share, max_runs)
         confirmed = orch.confirm_crashes(e, prop, seed, agg, tier=tier)
         agg["violations"] += confirmed
